@@ -23,12 +23,12 @@ def run_config(chk, tier, cfgname):
     typestate.apply(chk, "sweep-outcome-table", "sweep_one", aspects=("safety", "reclaim"))
     for t in ("trace", "trace_weak", "resurrect", "backward_barrier", "backward_barrier_weak", "forward_barrier",
               "forward_barrier_weak", "upgrade", "link", "mark_one"):
-        typestate.apply(chk, "colour-moves:" + t, t, aspects=("safety", "overmark"))
+        typestate.apply(chk, "colour-moves:" + t, t, aspects=("safety", "overmark", "overmark-strong"))
     n = common.confined(chk, prog, "set_color-confined", "gc_ptr::GcHeader::set_color", TABLE_ENTRIES,
                         "colour written outside the analysed primitives")
     chk.floor("set_color-sites", n, 3)
     common.protocol_rows(chk, prog, "finish_cycle-whole-cycles", ["finish_cycle"], aspects=("cycle", "safety"))
-    typestate.report_automaton(chk, ["S3", "S3r", "S2"])
+    typestate.report_automaton(chk, ["S3", "S3r", "S2", "S2o", "S3o"])
     # shell clause as typestate paths
     A = typestate.auto(cfgname)
     shell_made = [t for t in A.trans if t.op == "collector:sweep_one" and t.src[1] == "WW" and t.src[2] == 1
